@@ -81,3 +81,55 @@ def include(ctx, r, modname, rid, pick=None, prefix=None):
             r.insts.append(type(i)(r.rid, r._key(k), i.ok, i.site, i.built, i.expected, i.why, info=i.info, kind=i.kind))
             n += 1
     return n
+
+
+def _exhaustive(preds):
+    """Do the predicates tested on one subject at one decision node cover every case?"""
+    import canon
+    ps = set(preds)
+    if True in ps and False in ps:
+        return True
+    strs = [p_ for p_ in ps if isinstance(p_, str)]
+    if len(strs) != len(ps):
+        return False
+    if '_' in strs or {'Some(_)', 'None'} <= set(strs) or {'Ok(_)', 'Err(_)'} <= set(strs):
+        return True
+    pos = set()
+    for p_ in strs:
+        if not p_.startswith('not '):
+            pos.update(x.strip() for x in p_.split(' | '))
+    for p_ in strs:
+        if p_.startswith('not ') and all(x.strip() in pos for x in p_[4:].split(' | ')):
+            return True
+    # a crate enum: the variants named must be all of them
+    names, enum = set(), None
+    for x in pos:
+        head = x.split('(')[0].split('{')[0]
+        if '::' not in head:
+            return False
+        e, v = head.rsplit('::', 1)
+        if enum not in (None, e):
+            return False
+        enum = e
+        names.add(v)
+    info = canon.variants_of(enum) if enum else None
+    return info is not None and names == set(x[0] for x in info[1])
+
+
+def covers_all(cond_lists):
+    """cond_lists: for each path reaching a point, the conditions (subject, predicate) tested on the way, in order.
+    True iff together the paths cover every case, i.e. the point is reached unconditionally (decision-tree completeness)."""
+    if not cond_lists:
+        return False
+    if any(not c for c in cond_lists):
+        return True
+    subj = set(c[0][0] for c in cond_lists)
+    if len(subj) != 1:
+        return False
+    groups = {}
+    for c in cond_lists:
+        groups.setdefault(c[0][1], []).append(list(c[1:]))
+    if not _exhaustive(list(groups)):
+        return False
+    return all(covers_all(g) for g in groups.values())
+
